@@ -181,51 +181,110 @@ func r15b(c *core.Ctx) {
 		onlyUnmap = false
 	}
 	c.Check(unmap != nil && onlyUnmap, "unmap-first", fn.Pos(), fn, "the address is only used after Unmap() (IPv4-mapped IPv6 is treated as IPv4)", "")
-	n := 0
-	for _, call := range core.CallsNamed(fn, "net/netip.PrefixFrom") {
-		n++
-		cc := call.(*ssa.Call)
-		// which family test dominates
+	// every way a prefix length reaches PrefixFrom: the option field loaded, and the family test that holds where it is
+	// selected (at the call, or on the edge of the phi that merges the arms). Is4 ⇒ V4Mask; Is6, or "not Is4" for a valid
+	// unmapped address ⇒ V6Mask.
+	famAt := func(b *ssa.BasicBlock) string {
 		fam := ""
-		for _, cnd := range core.CondsAt(cc.Block()) {
-			if tc, ok := cnd.Cond.(*ssa.Call); ok && cnd.Val {
-				switch core.CallName(tc) {
-				case "(net/netip.Addr).Is4":
+		for _, cnd := range core.CondsAt(b) {
+			v, val := cnd.Cond, cnd.Val
+			for {
+				if u, ok := v.(*ssa.UnOp); ok && u.Op == token.NOT {
+					v, val = u.X, !val
+					continue
+				}
+				break
+			}
+			tc, ok := v.(*ssa.Call)
+			if !ok {
+				continue
+			}
+			switch core.CallName(tc) {
+			case "(net/netip.Addr).Is4":
+				if val {
 					fam = "V4Mask"
-				case "(net/netip.Addr).Is6":
+				} else if fam == "" {
+					fam = "V6Mask"
+				}
+			case "(net/netip.Addr).Is6":
+				if val {
 					fam = "V6Mask"
 				}
 			}
 		}
-		bits := ""
-		for _, o := range core.Origins(cc.Call.Args[1], core.OriginOpts{}) {
-			if u, ok := o.(*ssa.UnOp); ok {
-				if fa, ok := u.X.(*ssa.FieldAddr); ok {
-					bits += core.FieldAddrRef(fa).Name
-					continue
+		return fam
+	}
+	n := 0
+	for _, call := range core.CallsNamed(fn, "net/netip.PrefixFrom") {
+		cc := call.(*ssa.Call)
+		type src struct {
+			v   ssa.Value
+			blk *ssa.BasicBlock
+		}
+		var srcs []src
+		seen := map[ssa.Value]bool{}
+		var collect func(v ssa.Value, blk *ssa.BasicBlock)
+		collect = func(v ssa.Value, blk *ssa.BasicBlock) {
+			v = core.Unspill(v)
+			if p, ok := v.(*ssa.Phi); ok {
+				if seen[p] {
+					return
 				}
+				seen[p] = true
+				for i, e := range p.Edges {
+					collect(e, p.Block().Preds[i])
+				}
+				return
 			}
-			bits += "?" + core.Describe(o)
+			srcs = append(srcs, src{v, blk})
+		}
+		collect(cc.Call.Args[1], cc.Block())
+		for _, sr := range srcs {
+			n++
+			fam := famAt(sr.blk)
+			bits := ""
+			for _, o := range core.Origins(sr.v, core.OriginOpts{}) {
+				if u, ok := o.(*ssa.UnOp); ok {
+					if fa, ok := u.X.(*ssa.FieldAddr); ok {
+						bits += core.FieldAddrRef(fa).Name
+						continue
+					}
+				}
+				bits += "?" + core.Describe(o)
+			}
+			c.Check(fam != "" && bits == fam, "mask-field["+fam+"]", cc.Pos(), fn, "the "+fam+" arm masks with opts."+fam, "prefix length comes from opts."+bits)
 		}
 		addrOK := false
 		for _, o := range core.Origins(cc.Call.Args[0], core.OriginOpts{}) {
 			addrOK = o == ssa.Value(unmap)
 		}
-		c.Check(fam != "" && bits == fam, "mask-field["+fam+"]", cc.Pos(), fn, "the "+fam+" arm masks with opts."+fam, "prefix length comes from opts."+bits)
-		c.Check(addrOK, "mask-addr["+fam+"]", cc.Pos(), fn, "the prefix is built from the unmapped client address", "")
-		// result = PrefixFrom(...).Masked().Addr()
+		c.Check(addrOK, "mask-addr", cc.Pos(), fn, "the prefix is built from the unmapped client address", "")
+		// result = PrefixFrom(...).Masked().Addr(): the prefix value flows (possibly merged with the other arm or the zero
+		// Prefix) into Masked, whose result flows into Addr, which is returned
 		retOK := false
 		for _, ret := range returnsOf(fn) {
-			if a, ok := ret.Results[0].(*ssa.Call); ok && core.CallName(a) == "(net/netip.Prefix).Addr" {
-				if m, ok := a.Call.Args[0].(*ssa.Call); ok && core.CallName(m) == "(net/netip.Prefix).Masked" && m.Call.Args[0] == ssa.Value(cc) {
-					retOK = true
+			for _, o := range core.Origins(core.ReturnResults(ret)[0], core.OriginOpts{}) {
+				a, ok := o.(*ssa.Call)
+				if !ok || core.CallName(a) != "(net/netip.Prefix).Addr" {
+					continue
+				}
+				for _, o2 := range core.Origins(a.Call.Args[0], core.OriginOpts{}) {
+					m, ok := o2.(*ssa.Call)
+					if !ok || core.CallName(m) != "(net/netip.Prefix).Masked" {
+						continue
+					}
+					for _, o3 := range core.Origins(m.Call.Args[0], core.OriginOpts{}) {
+						if o3 == ssa.Value(cc) {
+							retOK = true
+						}
+					}
 				}
 			}
 		}
-		c.Check(retOK, "mask-result["+fam+"]", cc.Pos(), fn, "the bucket key is PrefixFrom(addr, bits).Masked().Addr() (host bits cleared)", "")
+		c.Check(retOK, "mask-result", cc.Pos(), fn, "the bucket key is PrefixFrom(addr, bits).Masked().Addr() (host bits cleared)", "")
 	}
 	if n < 2 {
-		c.Unknown("mask-arms", fn.Pos(), fn, "two family arms (Is4, Is6)", fmt.Sprintf("%d PrefixFrom calls", n))
+		c.Unknown("mask-arms", fn.Pos(), fn, "two family arms (Is4, Is6)", fmt.Sprintf("%d prefix lengths reach PrefixFrom", n))
 	}
 }
 
